@@ -985,6 +985,19 @@ func (m *StateMachine) handleProposalViewUpdate(
 			// after sending the choose request.
 			clear(rlc.PrevConsideredHashes)
 
+			// The prevote quorum is already visible,
+			// so as when it becomes visible while awaiting prevotes,
+			// we also need to make our precommit decision now.
+			// Otherwise nothing requests it later in this round.
+			_ = gchan.SendC(
+				ctx, m.log,
+				m.cm.DecidePrecommitRequests, tsi.DecidePrecommitRequest{
+					VS:     vrv.VoteSummary.Clone(), // Clone under assumption to avoid data race.
+					Result: rlc.PrecommitHashCh,
+				},
+				"deciding precommit following observation of majority prevote while expecting proposal",
+			)
+
 			return
 		}
 
